@@ -710,6 +710,13 @@ func plantMarkers(c *SCase, idx int) {
 }
 
 func init() {
+	// a format registered by the application whose validator wraps the library's own schema error
+	openapi3.DefineStringFormatValidator("x-wrapped", openapi3.NewCallbackValidator(func(v string) error {
+		if err := openapi3.NewIPValidator(true).Validate(v); err != nil {
+			return fmt.Errorf("bad host: %w", err)
+		}
+		return nil
+	}))
 	runners["C01"] = schemaRunner("C01", SchemaGenOpts{Hostile: true},
 		"directed keyword/boundary table + seeded random schemas (depth<=3) with values generated towards the schema then mutated; non-trivial = schema has at least one keyword beyond type; distinct by JSON of (schema,value)", nil)
 	runners["C12"] = schemaRunner("C12", SchemaGenOpts{Hostile: true, Formats: true},
